@@ -153,6 +153,112 @@ def table_check(ctx, table=(), subapp=None, n=4, first_pool=True, small_first=Fa
             info["trace"] = [list(map(str, t)) for t in trace]
     return f, tag, info
 
+# ---- path-normalising redirects and url_for (concrete strings chosen by the solver: quoting lives in yarl) ----
+REDIRECT_PIECES = ["/", "//", "/\\", "\\", "a", "evil.com", "%2F", "%5C", ".", "..", "@", ":", "%09", "b/"]
+
+
+def normalize_redirect(ctx, npieces=3, first=None):
+    """A request target assembled from solver-chosen pieces goes through a real server connection
+    with normalize_path_middleware installed; whatever redirect comes back must stay on the site:
+    Location starts with exactly one '/' (a browser reads '//x' and '/\\x' as another host)."""
+    import asyncio
+    import logging
+
+    from aiohttp import web
+
+    from harness.vloop import MemTransport, VLoop, install
+
+    logging.disable(logging.CRITICAL)
+    loop = install(VLoop())
+    mode = ctx.pick("mode", ["append", "remove", "merge-only", "append-no-merge"])
+    mw = web.normalize_path_middleware(append_slash=mode.startswith("append"), remove_slash=mode == "remove",
+                                       merge_slashes=mode != "append-no-merge")
+
+    async def h(request):
+        return web.Response(text="ok")
+
+    app = web.Application(middlewares=[mw])
+    app.router.add_get("/", h)
+    app.router.add_get("/{name}/", h)
+    app.router.add_get("/a/b", h)
+    app.router.add_get("/x/{tail:.*}", h)
+    app.router.add_get("/{name}/{second}", h)
+    runner = web.AppRunner(app, handle_signals=False, access_log=None)
+    asyncio.Task(runner.setup(), loop=loop)
+    loop.run_ready()
+    proto = runner.server()
+    tr = MemTransport()
+    proto.connection_made(tr)
+    pieces = [first] if first else []
+    n = ctx.choice("npieces", npieces) + 1
+    for i in range(n - len(pieces)):
+        pieces.append(ctx.pick(f"p{i}", REDIRECT_PIECES))
+    target = "".join(pieces)
+    if not target.startswith("/"):
+        target = "/" + target
+    query = ctx.pick("query", ["", "?next=//evil.com"])
+    proto.data_received(b"GET " + target.encode() + query.encode() + b" HTTP/1.1\r\nHost: site\r\n\r\n")
+    loop.run_ready()
+    out = bytes(tr.out)
+    head = out.split(b"\r\n\r\n")[0].split(b"\r\n")
+    status = int(head[0].split(b" ")[1]) if head and head[0].startswith(b"HTTP/") else 0
+    loc = None
+    for ln in head[1:]:
+        if ln.lower().startswith(b"location:"):
+            loc = ln.split(b":", 1)[1].strip().decode("latin1")
+    info = {"target": target + query, "mode": mode, "status": status, "location": loc}
+    if status in (301, 302, 307, 308):
+        if loc is None:
+            info["key"] = "redirect-without-location"
+            return False, "inv:redirect", info
+        if not loc.startswith("/") or loc[1:2] in ("/", "\\"):
+            info["key"] = "redirect-points-off-site"
+            return False, "inv:redirect", info
+        return True, "redirect:on-site", None
+    if status == 0:
+        info["key"] = "no-response-to-request"
+        return False, "inv:none", info
+    return True, f"status:{status}", None
+
+
+URLFOR_VALUES = ["v", "a b", "a%20b", "%", "100%", "x?y", "x#y", "a;b", "a+b", "caf\u00e9", "\u20ac", "a=b&c", "~", "a:b", "a@b",
+                 "..", ".", "%2F", "a%2Fb", "'", '"', "a\\b", "(x)", "*", "!", "$", ","]
+
+
+def url_for_inverse(ctx):
+    """url_for() and resolution are inverse for parameter values free of '/', '{' and '}'"""
+    from aiohttp import web
+    from aiohttp.test_utils import make_mocked_request
+
+    from harness.vloop import VLoop, install
+
+    install(VLoop())
+    tmpl = ctx.pick("template", ["/u/{v}", "/u/{v}/tail", "/p{v}", "/u/{v}/{w}", r"/r/{v:[^/]+}"])
+    v = ctx.pick("v", URLFOR_VALUES)
+    w = ctx.pick("w", URLFOR_VALUES) if "{w}" in tmpl else None
+
+    async def h(request):
+        return web.Response()
+
+    app = web.Application()
+    res = app.router.add_resource(tmpl, name="r")
+    res.add_route("GET", h)
+    kw = {"v": v}
+    if w is not None:
+        kw["w"] = w
+    url = res.url_for(**kw)
+    req = make_mocked_request("GET", url.raw_path_qs if hasattr(url, "raw_path_qs") else str(url), app=app)
+    mi = _run(app.router.resolve(req))
+    info = {"template": tmpl, "v": v, "w": w, "url": str(url)}
+    if mi.http_exception is not None:
+        info["key"] = f"url_for-result-does-not-resolve:{mi.http_exception.status}"
+        return False, "inv:urlfor", info
+    got = dict(mi)
+    if got.get("v") != v or (w is not None and got.get("w") != w):
+        info.update(key="url_for-resolve-not-inverse", got=got)
+        return False, "inv:urlfor", info
+    return True, "urlfor:ok", None
+
 
 def twin(ctx):
     f, tag, info = table_check(ctx, table=[("/a", ["GET"]), ("/{v}", ["POST"])], n=2)
@@ -186,6 +292,10 @@ def jobs(tier):
     ]
     for j, (tb, sa) in enumerate(subs):
         out.append(dict(name=f"sub-{j}", func="table_check", params=dict(table=tb, subapp=sa, n=n), limits=lim))
+    for pc in REDIRECT_PIECES:
+        out.append(dict(name=f"redirect-{REDIRECT_PIECES.index(pc)}", func="normalize_redirect",
+                        params=dict(npieces=3 if quick else 4, first=pc), limits=lim))
+    out.append(dict(name="url-for", func="url_for_inverse", params={}, limits=lim))
     return out
 
 
@@ -193,7 +303,7 @@ def twins(tier):
     return [dict(name="twin", func="twin", params={}, limits={"time_limit": 30, "max_paths": 30})]
 
 
-REQUIRED_OUTCOMES = ("ok/ok", "404", "405")
+REQUIRED_OUTCOMES = ("ok/ok", "404", "405", "redirect:on-site", "urlfor:ok")
 
 
 def bounds(tier):
